@@ -18,12 +18,13 @@ if os.path.exists(res):
 out.append("\n#### Changes written by independent sub-agents (`seeded/<ID>-<X>/`, confirmed and run by `seeded/verify.py`)\n")
 out.append("A/B and E: the author saw only the property text and a scratch worktree (E also the earlier notes). C/D (adversarial "
            "round): the author was additionally told which bounds the checks enumerate and asked for changes outside them. "
-           "A change that was missed at first has a second record, `meta_before_strengthening.json`, next to `meta.json`.\n\n")
-out.append("| change | confirmed (49 tests pass, demo fails with / passes without) | detected by | before strengthening | signatures | what it needs (from notes.md) |\n|---|---|---|---|---|---|\n")
+           "A change that was missed at first has a second record, `meta_before_strengthening.json`, next to `meta.json`; "
+           "`meta_final.json` is the regression run of every change against the final checks.\n\n")
+out.append("| change | confirmed (49 tests pass, demo fails with / passes without) | detected by | before strengthening | final regression | signatures | what it needs (from notes.md) |\n|---|---|---|---|---|---|---|\n")
 for d in sorted(glob.glob(os.path.join(V, "seeded", "C*-*"))):
     mp = os.path.join(d, "meta.json")
     if not os.path.exists(mp):
-        out.append(f"| {os.path.basename(d)} | (not verified yet) | | | | |\n")
+        out.append(f"| {os.path.basename(d)} | (not verified yet) | | | | | |\n")
         continue
     m = json.load(open(mp))
     sigs = []
@@ -42,7 +43,12 @@ for d in sorted(glob.glob(os.path.join(V, "seeded", "C*-*"))):
     if os.path.exists(bp):
         b = json.load(open(bp))
         before = ", ".join(b["detected_by"]) or "missed"
-    out.append(f"| {m['name']} | {'yes' if m['confirmed'] else 'NO'} | {', '.join(m['detected_by']) or '**missed**'} | {before} | {', '.join(sigs)[:160]} | {need.replace('|', '/')} |\n")
+    fp = os.path.join(d, "meta_final.json")
+    final = ""
+    if os.path.exists(fp):
+        fm = json.load(open(fp))
+        final = ", ".join(fm["detected_by"]) or "missed by its own check"
+    out.append(f"| {m['name']} | {'yes' if m['confirmed'] else 'NO'} | {', '.join(m['detected_by']) or '**missed**'} | {before} | {final} | {', '.join(sigs)[:160]} | {need.replace('|', '/')} |\n")
 text = "".join(out)
 p = os.path.join(V, "DESIGN.md")
 s = open(p).read()
